@@ -219,6 +219,9 @@ impl Totality {
         }
         for v in picked {
             for codec in [Codec::Text, Codec::Json] {
+                // encoding a value parses it back as well: traced, because it can bring the
+                // process down just like a damaged input
+                trace_case(|| json!({"values": [v]}));
                 let Ok(Some(enc)) = round_trip(v, codec) else { continue };
                 if enc.len() > 1500 {
                     continue;
@@ -317,6 +320,27 @@ impl Check for Totality {
             let v: Vec<(String, String)> =
                 serde_json::from_value(inputs.clone()).map_err(|e| e.to_string())?;
             return Ok(self.run_inputs(&v));
+        }
+        if let Some(vals) = case.get("values") {
+            // crash triage case: a value whose own encoding could not be parsed back safely
+            let vals: Vec<Val> = serde_json::from_value(vals.clone()).map_err(|e| e.to_string())?;
+            let hooks = SeqHooks::new(ClockCfg::default(), 3, 4);
+            let _i = Installed::new(hooks);
+            let mut out = RunOut::default();
+            for v in &vals {
+                for codec in [Codec::Text, Codec::Json] {
+                    if let Err(e) = round_trip(v, codec) {
+                        if e.contains("panicked") {
+                            push_v(
+                                &mut out,
+                                format!("C18/{}-round-trip-panics", v.type_name()),
+                                e,
+                            );
+                        }
+                    }
+                }
+            }
+            return Ok(out);
         }
         let seed: u64 = case["values_seed"]
             .as_str()
